@@ -366,6 +366,21 @@ let collector_line line =
   let a = List.rev !arrival in
   fmt_cstate (finalize error_sort_when_muted mute (collect_all a))
 
+(* stats: <src> <filter> <skip> <analysed 0|1> <input hex> -- scanner + forwarding + analysis statistics + collector *)
+let stats_line line =
+  match split_ws line with
+  | [ src; filter; skip; analysed; hex ] ->
+      let input = if hex = "-" then [] else bytes_of_hex hex in
+      if List.length input < 64 then "SHORT"
+      else begin
+        let c = parse_scfg src filter skip in
+        let out = scan_impl c input in
+        let version = List.hd input in
+        let a = stats_arrival version out (analysed = "1") in
+        fmt_cstate (finalize error_sort_when_muted false (collect_all a))
+      end
+  | _ -> "unknown"
+
 let rdhrt_line line =
   let b = bytes_of_hex (String.trim line) in
   let r = decode_rdh b in
@@ -386,6 +401,7 @@ let () =
     | "rdhrt" -> rdhrt_line
     | "writer" -> writer_line
     | "collector" -> collector_line
+    | "stats" -> stats_line
     | "wordspec" -> wordspec_line
     | "rdhspec" -> rdhspec_line
     | _ -> prerr_endline ("unknown stream " ^ stream); exit 2
